@@ -52,6 +52,9 @@ static int decide(int s, int m) {
   if (d == 0) return 0;
   int guard = (m & 31) == 4 || (m & 31) == 14;
   if (d == -1) { __CPROVER_assume(guard); return -1; }
+#ifdef WITH_PLAN
+  if (d == 0x1000 || d == 0x2000) { __CPROVER_assume((m & 31) == 8); return d; }    /* succeed() / fail() from update() */
+#endif
   int kind = (d >> 8) & 0xf, dest = d & 0xff;
   __CPROVER_assume((d & ~0xfff) == 0 && kind >= 1 && kind <= 7 && ((CB_KINDS >> kind) & 1) && dest < NS);
   __CPROVER_assume(budget > 0); budget--;
@@ -100,6 +103,20 @@ int main(void) {
     __CPROVER_assume(sel_val[c] < co_width[c]);
   }
   __CPROVER_assume(inv_forks(aa, ra));
+#ifdef WITH_PLAN
+  /* both configurations have plans enabled: the same symbolic plan (<= 2 tasks on the root region, cyclic tasks
+     included) is appended to both */
+  { unsigned np = nondet_uchar();
+    __CPROVER_assume(np <= 2);
+    for (unsigned i = 0; i < 2; i++) if (i < np) {
+      unsigned o = nondet_uchar();
+      unsigned d = nondet_uchar();
+      unsigned k = nondet_uchar();
+      __CPROVER_assume(o >= 1 && o < NS && d >= 1 && d < NS && k >= 1 && k <= 3);
+      int ra_ = A_vf_plan_append(&ia, 0, o, d, k), rb_ = B_vf_plan_append(&ib, 0, o, d, k);
+      __CPROVER_assert(ra_ == rb_, "C15 append succeeds in both configurations alike");
+    } }
+#endif
   phase = 1;
 #if ENTRY == 1
   budget = CB_BUDGET; which = 0; A_vf_update(&ia);
@@ -121,6 +138,10 @@ int main(void) {
   for (int c = 0; c < NC; c++) __CPROVER_assert(aa[c] == ab[c] && ra[c] == rb[c], "C15 both configurations end in the same configuration");
   for (int s = 0; s < NS; s++) __CPROVER_assert(A_vf_is_active(&ia, s) == B_vf_is_active(&ib, s) && A_vf_is_resumable(&ia, s) == B_vf_is_resumable(&ib, s), "C15 both configurations report the same active/resumable states");
   __CPROVER_assert(A_vf_requests_count(&ia) == B_vf_requests_count(&ib), "C15 both configurations leave the same queue");
+#ifdef WITH_PLAN
+  __CPROVER_assert(A_vf_plan_len(&ia, 0) == B_vf_plan_len(&ib, 0) && A_vf_task_count(&ia) == B_vf_task_count(&ib), "C15 both configurations hold the same plan afterwards");
+  for (int s = 0; s < NS; s++) __CPROVER_assert(A_vf_task_success(&ia, s) == B_vf_task_success(&ib, s), "C15 both configurations hold the same task marks afterwards");
+#endif
   VF_OBS(aa[0]);
   return 0;
 }
